@@ -2,7 +2,7 @@
    (column = fasthash64(key, row) mod width): end-to-end executable model of the kernels, used by C01's
    correspondence on a subset of cases (the bucket map is then COMPUTED by the model, not observed). *)
 From Coq Require Import ZArith List Bool.
-From Sketchnu Require Import Machine Harness Hashes HashInj CmsLinear CmsLinearHarness.
+From Sketchnu Require Import Machine Harness Hashes HashBucket CmsLinear CmsLinearHarness.
 Import ListNotations.
 Open Scope Z_scope.
 
